@@ -2,7 +2,7 @@
    groups of numbers (header, data, operations); the result is a list of groups.  The
    same function is run extracted (OCaml driver) and inside Coq (cases.v, vm_compute);
    the Rust harness interprets the same case language against the real crate. *)
-From DSI Require Export World Dispatch Names Small Stats.
+From DSI Require Export World Dispatch Names Small Stats CodeDefs.
 From DSI.Gen Require Export GenTables GenParams.
 From Coq Require Import Ascii.
 Open Scope list_scope.
@@ -481,6 +481,31 @@ Definition run_fcp (hdr : list N) (data : list N) : list (list N) :=
   | Err => [[1]] | Fail => [[2]] | Fuel => [[3]]
   end.
 
+(* published definitions: op = [code id; param; value] -> [0; number of bits; image bytes] *)
+Definition run_def (E : endian) (op : list N) : list N :=
+  let p := nth0 op 1 in let v := nth0 op 2 in
+  let o : option bits :=
+    match nth0 op 0 with
+    | 0 => Some (unary v)
+    | 1 => Some (def_gamma E v)
+    | 2 => Some (def_delta E v)
+    | 3 => Some (def_omega E v)
+    | 4 => Some (def_vbyte E false v)
+    | 5 => Some (def_vbyte E true v)
+    | 6 => Some (def_zeta E p v)
+    | 7 => Some (def_pi E p v)
+    | 8 => Some (def_golomb E p v)
+    | 9 => Some (def_exp_golomb E p v)
+    | 10 => Some (def_rice E p v)
+    | 11 => Some (def_minimal_binary E v p)
+    | 12 => Some (def_zeta E 3 v)
+    | _ => None
+    end in
+  match o with
+  | Some bs => 0 :: N.of_nat (List.length bs) :: image E bs
+  | None => [2]
+  end.
+
 (* ------------------------------------------------------------------ *)
 (* flags = [level; checks; no_copy_impls];  groups = header :: data :: ops *)
 Definition run_case (flags : list N) (groups : list (list N)) : list (list N) :=
@@ -505,5 +530,6 @@ Definition run_case (flags : list N) (groups : list (list N)) : list (list N) :=
          else run_adapter_read (nth0 hdr 1) (N.to_nat (nth0 hdr 3)) (map event_of data) (hd [] ops)
   | 9 => run_stats stats_default [] ops
   | 10 => run_fcp hdr data
+  | 12 => map (run_def (endian_of (nth0 hdr 1))) ops
   | _ => [[2]]
   end.
